@@ -12,7 +12,8 @@ from mc.scratch import scratch_dir
 PROPERTY = "C19"
 LEVEL = "fault_enumeration"
 TECHNIQUE = "exhaustive enumeration of hostile document families at every XML entry point under an OS-level audit monitor"
-RULE = ("entry point {OVF, VBox, PVS, Parallels DiskDescriptor via HDD(path)} x hostile family {internal general entity, nested "
+RULE = ("entry point {OVF, VBox, PVS, Parallels DiskDescriptor via HDD(path)} x handle kind {text, binary} x document size "
+        "{small, > 64 KiB, > 256 KiB} x hostile family {internal general entity, nested "
         "entity chain ('laughs' shape, factor 10 per level), external general entity file:// and http://127.0.0.1:<closed>, "
         "internal / external parameter entity, external DTD subset without entity declarations, DOCTYPE without declarations, "
         "plain} x nesting depth 1..6 x reference site {text, attribute, unused}. Oracle: a document that declares an entity is "
@@ -42,7 +43,10 @@ def run_shard(shard, ctx):
         depths = range(1, 7) if fam in ("laughs", "internal", "param-internal") else (1,)
         for depth in depths:
             for site in SITES:
-                run_case({"entry": shard["entry"], "family": fam, "depth": depth, "site": site}, ctx)
+                for handle in (("text", "bytes") if shard["entry"] != "hdd" else ("text",)):
+                    for pad in ((0, 70000, 300000) if depth == 1 and site != "attribute" else (0,)):
+                        run_case({"entry": shard["entry"], "family": fam, "depth": depth, "site": site, "handle": handle,
+                                  "pad": pad}, ctx)
 
 
 def _doctype(fam, depth, canary, root):
@@ -104,19 +108,20 @@ def _document(entry, fam, depth, site, canary):
     return head + body, expect
 
 
-def _parse(entry, doc, d):
+def _parse(entry, doc, d, handle="text"):
+    fh = io.StringIO(doc) if handle == "text" else io.BytesIO(doc.encode("utf-8"))
     if entry == "ovf":
         from dissect.hypervisor.descriptor.ovf import OVF
 
-        return list(OVF(io.StringIO(doc)).disks())
+        return list(OVF(fh).disks())
     if entry == "vbox":
         from dissect.hypervisor.descriptor.vbox import VBox
 
-        return list(VBox(io.StringIO(doc)).disks())
+        return list(VBox(fh).disks())
     if entry == "pvs":
         from dissect.hypervisor.descriptor.pvs import PVS
 
-        return list(PVS(io.StringIO(doc)).disks())
+        return list(PVS(fh).disks())
     from dissect.hypervisor.disk.hdd import HDD
 
     hd = os.path.join(d, "x.hdd")
@@ -141,6 +146,10 @@ def run_case(case, ctx):
             with open(p, "w") as f:
                 f.write('<!ENTITY g "leaked">' if p.endswith(".dtd") else "TOP-SECRET")
         doc, expect = _document(entry, fam, depth, site, canary)
+        if case.get("pad"):
+            # a large document: harmless comment padding before the closing tag of the root element
+            cut = doc.rindex("</")
+            doc = doc[:cut] + "<!--" + "p" * case["pad"] + "-->" + doc[cut:]
         if entry == "hdd":
             hd = os.path.join(d, "x.hdd")
             os.makedirs(hd, exist_ok=True)
@@ -150,7 +159,7 @@ def run_case(case, ctx):
         with ctx.watch(case, 30):
             with monitors.armed() as events:
                 try:
-                    result = _parse(entry, doc, d)
+                    result = _parse(entry, doc, d, case.get("handle", "text"))
                 except Exception as e:
                     exc = e
             evs = list(events)
